@@ -134,12 +134,19 @@ func cmdCheck(args []string) int {
 	}
 	if *prop == "C13" {
 		run.obls = append(run.obls, v.globalWriteScan()...)
-		run.obls = append(run.obls, v.builtinObligations()...)
+	}
+	for _, o := range append(v.builtinObligations(), v.builtinFieldScan()...) {
+		for _, q := range o.Props {
+			if q == *prop {
+				run.obls = append(run.obls, o)
+				break
+			}
+		}
 	}
 	// solve
 	var wg sync.WaitGroup
 	var mu sync.Mutex
-	gate := make(chan struct{}, 8)
+	gate := make(chan struct{}, 14)
 	// query texts are produced sequentially (translation state is not goroutine-safe); solving is parallel
 	queries := make([]string, len(run.obls))
 	for i, o := range run.obls {
@@ -157,7 +164,17 @@ func cmdCheck(args []string) int {
 				to = 4
 				which = []string{"z3-new"}
 			}
-			res := run.pool.solve(q, to, which)
+			var res SolveResult
+			if which == nil {
+				// z3 5.1 alone first: it decides most obligations in well under a second, and not racing three solvers
+				// on every obligation keeps the machine uncontended for the ones that need the race
+				res = run.pool.solve(q, 8, []string{"z3-new"})
+				if res.Status != "unsat" && res.Status != "sat" {
+					res = run.pool.solve(q, to, nil)
+				}
+			} else {
+				res = run.pool.solve(q, to, which)
+			}
 			o.Result = &res
 			mu.Lock()
 			if res.Cached {
@@ -171,6 +188,24 @@ func cmdCheck(args []string) int {
 		}(o, queries[i])
 	}
 	wg.Wait()
+	// second chance, without contention: an obligation that only timed out (no model) while many solver processes were
+	// racing is retried alone with three times the budget before it is reported.  Never applied to `sat` answers.
+	retried := 0
+	for i, o := range run.obls {
+		if o.Cover || o.Result == nil || o.Result.Status == "unsat" || o.Result.Status == "sat" || o.Goal == "false" || o.Goal == "true" {
+			continue
+		}
+		if retried >= 12 {
+			break
+		}
+		retried++
+		res := run.pool.solve(queries[i], 3*run.timeout, nil)
+		if res.Status == "unsat" || res.Status == "sat" {
+			o.Result = &res
+			run.byBack[res.Solver]++
+		}
+		run.solverS += res.TimeS
+	}
 
 	var known KnownFile
 	loadJSON(filepath.Join(vd, "known-findings.json"), &known)
